@@ -443,6 +443,40 @@ def vector_goal_cases(ctx):
                               a["objectives"], b["objectives"], desc["scale_by_problem_size"]))
 
 
+def qp_reported_objectives(ctx):
+    """single pass through the caching QP front-end: the objective value reported for every priority is the
+    documented objective (incl. the constant terms of its goals) of that priority at the returned solution"""
+    from . import c17
+    from rtctools.optimization.single_pass_goal_programming_mixin import CachingQPSol
+    cases = [c["case"] for c in core.corpus_cases("C17")]
+    # a constant term only in a later priority
+    cases.append({"k": "pair", "times": [0, 1, 2], "E": 1, "p": [0], "variant": "multi", "options": {},
+                  "goals": [{"path": True, "fn": "y", "prio": 1, "k": 0, "order": 1, "weight": 1, "nominal": 1, "tmin": 3.0},
+                            {"path": False, "fn": "z", "prio": 2, "k": 2, "order": 1, "weight": 1, "nominal": 1, "offset": "8"},
+                            {"path": True, "fn": "y", "prio": 3, "k": 0, "order": 2, "weight": 1, "nominal": 1, "offset": "-2"}]})
+    for c in cases:
+        for variant in ("single_append", "single_update"):
+            cq = dict(c17.qp_case(c), variant=variant)
+
+            def work():
+                objs, ok, ps = c17.objective_values(cq, qp=("qpoases", CachingQPSol(), {"printLevel": "none"}))
+                if not ok or ps is None:
+                    return None
+                _, snaps = ps
+                return [(float(s_["objective_value"]), c02.priority_objective(cq, i, s_["priority"], s_["results"])) for i, s_ in enumerate(snaps)]
+            k, val = c17.in_child(work, timeout=120)
+            ctx.count("qp_reported_objective_runs")
+            ctx.case_done(core.fingerprint(["qp-reported", variant, [[g["prio"], g["fn"], g.get("offset")] for g in cq["goals"]]]), True)
+            if k != "ok" or val is None:
+                ctx.count("qp_reported_objective_unsolved")
+                continue
+            for i, (rep, doc) in enumerate(val):
+                if doc is not None and abs(rep - doc) > 1e-6 * (1 + abs(doc)):
+                    ctx.violation("objective/reported-by-qp-front-end", {"case": cq, "priority_index": i, "reported": rep, "documented": doc},
+                                  what="%s through CachingQPSol reports %g for priority index %d; the documented objective at the returned solution is %g" % (variant, rep, i, doc))
+                    break
+
+
 _run_core = run
 
 
@@ -451,3 +485,4 @@ def run(ctx):  # noqa: F811
     if not os.environ.get("VERIF_REPLAY"):
         retained_objective_cases(ctx)
         vector_goal_cases(ctx)
+        qp_reported_objectives(ctx)
